@@ -3,9 +3,9 @@ CONSTANTS
   MaxV = 2
   MaxTurnout = 3
   PevChoices <- Pev_quick
-  AllowZeroFinal = FALSE
   Export = FALSE
   IntTruncation = TRUE
+  MonotoneOnRescaled = FALSE
   MaxDist = 5
 INVARIANT Convex
 CHECK_DEADLOCK FALSE
